@@ -48,6 +48,11 @@ def main(argv: list[str] | None = None) -> int:
             rep.analysed["whole-tree benign variants"] = vsum
             problems = list(problems) + vprob
             print(f"VARIANTS {prop} " + "; ".join(f"{k}: {v}" for k, v in vsum.items()))
+            ssum, sprob = selftest.seeded_variants(prop)
+            if ssum:
+                rep.analysed["seeded defects (independent authors)"] = ssum
+                problems = list(problems) + sprob
+                print(f"SEEDED {prop} " + "; ".join(f"{k}: {v[:60]}" for k, v in ssum.items()))
             print(f"SELFTEST {prop} fired {summary.get('breaking_fired', '0/0')}, silent {summary.get('benign_silent', '0/0')} ({summary.get('variants', 0)} scratch-copy variants)")
         code = rep.finish(repo)
         if problems and code == 0:
